@@ -71,12 +71,12 @@ CHECKS['C03'] = dict(
 CHECKS['C16'] = dict(
     text="Proof: for every dependency graph (cyclic or not) the ordering loop of write_python_table_native, when it finishes, lists every contributing library exactly once; every "
          "dependency not broken as part of a reported cycle is respected; in an acyclic graph nothing is broken, so each library precedes all libraries deriving from it; the cycle "
-         "search only reports closed walks along current edges. Correspondence: all digraphs on <=3 libraries and random ones on 4-6 libraries are built by real interrogate runs and "
+         "search only reports closed walks along current edges; the loop TERMINATES on every graph held in a std::map (potential: libraries not listed + names without entry + edges; "
+         "a search that reports no cycle in a live graph has created an entry - by induction over the depth-first path, bounded by pigeonhole). Correspondence: all digraphs on <=3 libraries and random ones on 4-6 libraries are built by real interrogate runs and "
          "linked by interrogate_module in every command-line order; the exact 'Referencing Library' / RegisterTypes / LibraryDef order must equal the extracted model's; "
          "unloadable databases must give a non-zero exit and no output file.",
-    note=TB + "termination of the loop is exercised (model never runs out of fuel, tool never hangs on the generated graphs) but not yet proved; typedef edges across libraries cannot be "
-         "realised without exporting one class from two libraries and are not generated.",
-    technique="Coq proof (loop invariant over the dependency map: edge accounting, order, cycle-search soundness) + exact-order differential check against interrogate_module",
+    note=TB + "typedef edges across libraries cannot be realised without exporting one class from two libraries and are not generated.",
+    technique="Coq proof (loop invariant over the dependency map: edge accounting, order, cycle-search soundness, termination by a potential function) + exact-order differential check against interrogate_module",
     ref="5/C16")
 
 CHECKS['C19'] = dict(
